@@ -29,7 +29,7 @@ FLOORS = {'npv_calls': 500, 'pmt_pv_calls': 1000, 'sln_calls': 100,
           'linearity_relations': 100, 'inversion_relations': 200,
           'formula_calls': 50, 'layout_calls': 50, 'xnpv_timed_dates': 30,
           'xnpv_zero_flows': 30, 'whole_number_finance_cases': 6,
-          'shifted_range_formulas': 100}
+          'shifted_range_formulas': 100, 'argument_spelling_cases': 200}
 ANCHOR_FUNCS = {'xlcalculator/xlfunctions/financial.py': [
     'NPV', 'PMT', 'PV', 'SLN', 'XNPV', 'IRR', 'XIRR', '_xnpv', '_xirr']}
 TIMEOUT = {'quick': 600, 'thorough': 3000}
@@ -394,6 +394,89 @@ def run(ctx):
                   got, pv_ref, 1e-9 * abs(pv_ref), 'pmt_pv_calls',
                   ('PV-int', rate, nper))
             ctx.event('whole_number_finance_cases')
+
+    # ---- how an argument is written or handed over is no part of its value:
+    # small rates spelt 0.00001 / 1E-05 / 1e-05; NPV flows given as single cells,
+    # literals and ranges in one call, in order ------------------------------------
+    if ctx.shard in (2, 3, 4) or thorough:
+        def spellings_of(x):
+            from decimal import Decimal
+            plain = format(Decimal(repr(abs(x))), 'f')
+            forms_ = [plain, '%.6E' % abs(x), repr(abs(x)),
+                      ('%.6E' % abs(x)).replace('E', 'e')]
+            sign = '-' if x < 0 else ''
+            return [sign + f_ for f_ in dict.fromkeys(forms_)]
+        flows4 = [-1000.0, 300.0, 420.0, 680.0]
+        days4 = [43831.0, 43921.0, 44012.0, 44196.0]
+        cells4 = {f'B{i + 1}': v for i, v in enumerate(flows4)}
+        cells4.update({f'C{i + 1}': v for i, v in enumerate(days4)})
+        for rate in (1e-05, 2.5e-05, -3e-05, 7.25e-07, 4e-05, 1.5e-3, 0.02):
+            cases = [
+                ('NPV', f'=NPV({{r}},B1:B4)', (rate, *flows4)),
+                ('PV', f'=PV({{r}},36,-100)', (rate, 36, -100)),
+                ('PMT', f'=PMT({{r}},36,5000,-200)', (rate, 36, 5000, -200)),
+                ('XNPV', f'=XNPV({{r}},B1:B4,C1:C4)', None),
+            ]
+            for fname, tmpl, largs in cases:
+                if largs is not None:
+                    base = monitors.call_outcome(F[fname], *largs)
+                else:
+                    base = monitors.call_outcome(
+                        F['XNPV'], rate, T.Array([[v] for v in flows4]),
+                        T.Array([[v] for v in days4]))
+                want = numval(base)
+                if want is None:
+                    continue
+                for sp in spellings_of(rate):
+                    text = tmpl.format(r=sp)
+                    got = subject.eval_one(text, cells4)
+                    ctx.event('argument_spelling_cases')
+                    judge(fname, f'{text} (the library call with the float '
+                          f'{rate!r} gives {want!r})', got, want,
+                          1e-9 * max(abs(want), 1.0), 'formula_calls',
+                          (fname, 'rate-spelling', sp))
+        # NPV: flows partly single cells / literals, partly ranges
+        for _ in range(40 if thorough else 8):
+            n_ = rng.randint(3, 7)
+            flows_ = [round(rng.uniform(-900, 900), 2) for _ in range(n_)]
+            r_ = rng.choice([0.05, 0.1, 0.25, -0.05, 0.011])
+            want = float(sum(mp.mpf(c) / mp.power(1 + mp.mpf(r_), k + 1)
+                             for k, c in enumerate(flows_)))
+            cells_ = {f'B{i + 1}': v for i, v in enumerate(flows_)}
+            cells_['A1'] = r_
+            parts, i = [], 0
+            while i < n_:
+                ln = rng.choice([1, 1, 2, 3])
+                ln = min(ln, n_ - i)
+                if ln == 1:
+                    v = flows_[i]
+                    parts.append(f'B{i + 1}' if rng.random() < 0.6 else (
+                        subject.lit(v) if v >= 0 else '-' + subject.lit(-v)))
+                else:
+                    parts.append(f'B{i + 1}:B{i + ln}')
+                i += ln
+            if all(':' not in p_ for p_ in parts):
+                parts[-1] = f'B{n_}:B{n_}'
+            text = '=NPV(A1,' + ','.join(parts) + ')'
+            got = subject.eval_one(text, cells_)
+            ctx.event('argument_spelling_cases')
+            judge('NPV', f'{text} over {cells_}', got, want,
+                  1e-9 * max(abs(want), 1.0), 'formula_calls',
+                  ('NPV', 'mixed-arguments', tuple(':' in p_ for p_ in parts)))
+            # the same through the library: scalars and arrays in order
+            largs = []
+            for p_ in parts:
+                if ':' in p_:
+                    a_, b_ = (int(x[1:]) for x in p_.split(':'))
+                    largs.append(T.Array([[v] for v in flows_[a_ - 1:b_]]))
+                else:
+                    largs.append(cells_[p_] if p_ in cells_ else
+                                 float(p_.replace('-', '')) * (
+                                     -1 if p_.startswith('-') else 1))
+            got_l = monitors.call_outcome(F['NPV'], r_, *largs)
+            judge('NPV', f'NPV({r_}, {parts}) [library, mixed arguments]',
+                  got_l, want, 1e-9 * max(abs(want), 1.0), 'npv_calls',
+                  ('NPV', 'mixed-arguments-lib', len(parts)))
 
     # ---- the range-taking spellings as formulas --------------------------------------
     for kind, r, data, want, tol in formulas:
